@@ -1,9 +1,11 @@
 SPECIFICATION Spec
 CONSTANTS
   K = 6000
+  Ks = {6000}
+  MaxConn = 1
   UNIT = 250
   MaxT = 25000
   Dev = {}
   Record = FALSE
-INVARIANTS Inv_C10 Inv_C10_timer Inv_C10_detect Inv_C10_zero
+INVARIANTS Inv_C10 Inv_C10_timer Inv_C10_detect Inv_C10_zero Inv_C10_queue
 CHECK_DEADLOCK FALSE
